@@ -21,7 +21,22 @@ def sortedR (l : List Rat) : Bool := isSortedB l
 
 /-- admissible curve data: `|U| = n+p+1`, `n ≥ p+1`, `p ≥ 1`, sorted -/
 def okKv (p n : Nat) (U : List Rat) : Bool := decide (1 ≤ p) && decide (p + 1 ≤ n) && decide (U.length = n + p + 1) && sortedR U
-def inDom (p n : Nat) (U : List Rat) (u : Rat) : Bool := decide (fn U p ≤ u) && decide (u ≤ fn U n)
+/-- F-01b guard: the span the MODEL's linear search finds at `u` is empty (`U_k = U_{k+1}`).  On the closed domain of a
+    sorted knot vector this happens only at `u = U_n` when `U_{n-1} = U_n` (an unclamped vector whose repeated knot sits
+    exactly on the domain end, or an end knot repeated `p + 2` times).  The model does not have the step back to the last
+    non-empty span that the repaired `find_span_linear` / `find_span_binsearch` perform there (every theorem assumes
+    `KnotsOk`: non-empty last span), and evaluating on an empty span divides by zero (`x / 0 = 0` in Lean): the ops
+    answer ERR instead of printing such a value. -/
+def emptySpanAt (p n : Nat) (U : List Rat) (u : Rat) : Bool :=
+  let k := findSpanLinear p (fn U) n u
+  fn U k == fn U (k + 1)
+
+/-- parameter in the closed domain AND (F-01b guard) the span the model finds there is not empty -/
+def inDom (p n : Nat) (U : List Rat) (u : Rat) : Bool :=
+  decide (fn U p ≤ u) && decide (u ≤ fn U n) && !emptySpanAt p n U u
+
+/-- a sampled grid always contains the domain end `U_n`: F-01b guard for the grid ops -/
+def lastSpanEmpty (p n : Nat) (U : List Rat) : Bool := emptySpanAt p n U (fn U n)
 
 /-- `sample_size = int(math.floor(1.0/delta + 0.5))` -/
 def sampleSize (delta : Rat) : Nat := ((1 / delta + 1/2).floor).toNat
@@ -117,14 +132,14 @@ def handleBasic : List String → Option String
       return s!"{showList bb.1} {showList bb.2}"
   | ["cgrid", rat, p, us, ps, delta] => do
       let p ← p.toNat?; let U ← parseList us; let P ← parsePts ps; let dl ← parseRat delta
-      if !(okKv p P.length U) || dl ≤ 0 then return "ERR"
+      if !(okKv p P.length U) || dl ≤ 0 || lastSpanEmpty p P.length U then return "ERR"
       let n := sampleSize dl
       let ks := linspace (fn U p) (fn U P.length) n tolMult
       return showPts (curveGrid (rat == "1") p (fn U) P ks)
   | ["clen", rat, p, us, ps, delta, evs, ds] => do
       let p ← p.toNat?; let U ← parseList us; let P ← parsePts ps; let dl ← parseRat delta
       let E ← parsePts evs; let D ← parseList ds
-      if !(okKv p P.length U) || dl ≤ 0 then return "ERR"
+      if !(okKv p P.length U) || dl ≤ 0 || lastSpanEmpty p P.length U then return "ERR"
       let ks := linspace (fn U p) (fn U P.length) (sampleSize dl) tolMult
       let pts := curveGrid (rat == "1") p (fn U) P ks
       if pts != E then return "GRID"
@@ -134,7 +149,8 @@ def handleBasic : List String → Option String
   | ["sgrid", rat, pu, pv, uus, uvs, su, sv, ps, du, dv] => do
       let pu ← pu.toNat?; let pv ← pv.toNat?; let Uu ← parseList uus; let Uv ← parseList uvs
       let su ← su.toNat?; let sv ← sv.toNat?; let P ← parsePts ps; let du ← parseRat du; let dv ← parseRat dv
-      if !(okKv pu su Uu && okKv pv sv Uv && P.length == su * sv) || du ≤ 0 || dv ≤ 0 then return "ERR"
+      if !(okKv pu su Uu && okKv pv sv Uv && P.length == su * sv) || du ≤ 0 || dv ≤ 0
+          || lastSpanEmpty pu su Uu || lastSpanEmpty pv sv Uv then return "ERR"
       let kus := linspace (fn Uu pu) (fn Uu su) (sampleSize du) tolMult
       let kvs := linspace (fn Uv pv) (fn Uv sv) (sampleSize dv) tolMult
       return showPts (surfaceGrid (rat == "1") pu pv (fn Uu) (fn Uv) su sv P kus kvs)
@@ -143,7 +159,8 @@ def handleBasic : List String → Option String
       let Uu ← parseList uus; let Uv ← parseList uvs; let Uw ← parseList uws
       let su ← su.toNat?; let sv ← sv.toNat?; let sw ← sw.toNat?
       let P ← parsePts ps; let du ← parseRat du; let dv ← parseRat dv; let dw ← parseRat dw
-      if !(okKv pu su Uu && okKv pv sv Uv && okKv pw sw Uw && P.length == su * sv * sw) || du ≤ 0 || dv ≤ 0 || dw ≤ 0 then return "ERR"
+      if !(okKv pu su Uu && okKv pv sv Uv && okKv pw sw Uw && P.length == su * sv * sw) || du ≤ 0 || dv ≤ 0 || dw ≤ 0
+          || lastSpanEmpty pu su Uu || lastSpanEmpty pv sv Uv || lastSpanEmpty pw sw Uw then return "ERR"
       let kus := linspace (fn Uu pu) (fn Uu su) (sampleSize du) tolMult
       let kvs := linspace (fn Uv pv) (fn Uv sv) (sampleSize dv) tolMult
       let kws := linspace (fn Uw pw) (fn Uw sw) (sampleSize dw) tolMult
